@@ -380,10 +380,13 @@ class G:
             r = rng.random()
             if r < 0.15:
                 cname = self.stem().upper() + rng.choice(["_MAX", "_SIZE", "", "_2"])
-                v = rng.choice(["7", "0x10", "true", "false", '"hello world"', "3 * 4", '"tab\\there"'])
+                v = rng.choice(["7", "0x10", "true", "false", '"hello world"', "3 * 4", '"tab\\there"',
+                                '"say \\"hi\\""', '"back\\\\slash"', '"two\\nlines\\r"'])
                 out.append(f"const {cname} = {v}")
             elif r < 0.35:
-                en = self.gen_enum("", out)
+                # now and then an enum WITHOUT members (accepted by every target since the fix of
+                # empty-enum); it may be used as a field type like any other enum
+                en = self.gen_enum("", out, empty=rng.random() < 0.15)
                 f["types"].append(("enum", en))
             elif r < 0.55:
                 an = self.tname()
